@@ -7,6 +7,7 @@ import (
 	"reflect"
 	"sort"
 	"strings"
+	"sync/atomic"
 	"time"
 	"unsafe"
 
@@ -78,6 +79,11 @@ type c12Plan struct {
 	// ChaosTwin (chaos only): a second connection of the same process exchanges a few messages at the same time:
 	// whatever the connections share (package-level state) is shared by two reader goroutines.
 	ChaosTwin bool `json:"chaos_twin,omitempty"`
+	// ReadTimeout0: Info.PacketReadTimeout is 0 (legal: it concerns a transport that has ended).
+	ReadTimeout0 bool `json:"read_timeout_0,omitempty"`
+	// IdJump: when the first task has its channel, 255 more ids are "used up" (the connection's id counter is put
+	// forward): the next channel's id is the first one's plus 256, and both channels are in use at the same time.
+	IdJump bool `json:"id_jump,omitempty"`
 }
 
 type c12ChaosOp struct {
@@ -211,6 +217,20 @@ func (c12) Gen(r *Rand, idx int, tier string) interface{} {
 			p.Tasks[i].Empty = 1 + r.Intn(6)
 		}
 	}
+	p.ReadTimeout0 = r.Pct(8)
+	if len(p.Tasks) >= 2 && p.IdBase == 0 && r.Pct(8) {
+		p.IdJump = true
+		p.Tasks[0].Delay, p.Tasks[0].NoClose, p.Tasks[0].PostClose = 0, true, false
+		if p.Tasks[0].Rounds == 0 {
+			p.Tasks[0].Rounds = 2
+		}
+		for i := 1; i < len(p.Tasks); i++ {
+			p.Tasks[i].Delay += 3
+			if p.Tasks[i].Rounds == 0 {
+				p.Tasks[i].Rounds = 1
+			}
+		}
+	}
 	if r.Pct(12) {
 		// a slow server: it stops reading the connection now and then, writes of the sending tasks block once its
 		// socket buffer is full (while the reader goes on delivering) and go on later; nothing else may change
@@ -313,6 +333,13 @@ func (c12) Shrink(plan interface{}) []interface{} {
 }
 
 const c12UnknownChannel = 4999
+
+func c12ReadTimeout(p *c12Plan) int {
+	if p.ReadTimeout0 {
+		return 0
+	}
+	return 5
+}
 
 func c12Marker(task, round, k int) int32 { return int32(task*10000 + round*100 + k + 1) }
 
@@ -598,7 +625,7 @@ func (c12) Run(plan interface{}, schedSeed uint64, replay []simrt.Choice, lenien
 	}
 	mainInvalid := 0
 	out := s.Run(func() {
-		conn, err := tds.NewConn(context.Background(), MkInfo(p.QueueSize, 5, false))
+		conn, err := tds.NewConn(context.Background(), MkInfo(p.QueueSize, c12ReadTimeout(p), false))
 		if err != nil {
 			connErr = err.Error()
 			return
@@ -640,6 +667,12 @@ func (c12) Run(plan interface{}, schedSeed uint64, replay []simrt.Choice, lenien
 					}
 					tr.newErr = err.Error()
 					return
+				}
+				if p.IdJump && ti == 0 {
+					// (an atomic store, as the library's own accesses are: no report of the detector, no scheduling point)
+					f := reflect.ValueOf(conn).Elem().FieldByName("tdsChannelCurFreeId")
+					atomic.AddUint32((*uint32)(unsafe.Pointer(f.UnsafeAddr())), 255)
+					simrt.Record("id-counter-put-forward", "", "", 255)
 				}
 				receive := func() bool {
 					var recs []PkgRec
